@@ -6,3 +6,5 @@ import Verif.Properties.C06
 #print axioms C06.terminates
 #print axioms C06.remaining_all_referenced
 #print axioms C06.only_definitions_shrink
+#print axioms C06.pipeline_removeUnused
+#print axioms C06.phases_never_create_shared_sections
